@@ -1,6 +1,15 @@
 #!/usr/bin/env python3
+"""python3-vt kani/gen/all.py [c05 c06 ...]  - regenerates the generated harness files (all by default)."""
 import glob, importlib, os, sys
-sys.path.insert(0, os.path.dirname(os.path.abspath(__file__)))
-for f in sorted(glob.glob(os.path.join(os.path.dirname(os.path.abspath(__file__)), "c[0-9][0-9]*.py"))):
-    importlib.import_module(os.path.basename(f)[:-3]).gen()
-    print("generated from", os.path.basename(f))
+here = os.path.dirname(os.path.abspath(__file__))
+sys.path.insert(0, here)
+sys.path.insert(0, os.path.dirname(os.path.dirname(here)))
+want = sys.argv[1:]
+for f in sorted(glob.glob(os.path.join(here, "c[0-9][0-9]*.py"))):
+    name = os.path.basename(f)[:-3]
+    if want and name not in want:
+        continue
+    importlib.import_module(name).gen()
+    print("generated from", name + ".py")
+from pv import kani
+kani.write_registry()
